@@ -995,6 +995,10 @@ func globSortGuess(pre *State, rec *writeRec, k string, vc *VC) Sort {
 	if k == "$alloc" {
 		return SInt
 	}
+	if strings.HasPrefix(k, "G_") {
+		// package-level variables reach here only as scalars (sentinel errors and the like)
+		return SInt
+	}
 	return SArrII
 }
 
